@@ -1,6 +1,7 @@
 package checks
 
 import (
+	"encoding/hex"
 	"fmt"
 	"time"
 
@@ -114,6 +115,28 @@ func c15Cases() []chainCase {
 					}})
 			}
 		}
+	}
+	// "once": the same signed bytes delivered again in the next block move nothing more - whether the first delivery's
+	// message succeeded or failed after authentication (the fee of a failed message was charged once, not per copy)
+	resetGlobals(env)
+	first := env.BaseHeight + int64(env.Warmup) + 1
+	for _, m := range msgs {
+		m := m
+		bz, err := buildTxBytes(m.tx, first)
+		if err != nil {
+			panic(err)
+		}
+		raw := TxSpec{Kind: "raw:" + m.name, Signer: m.signer, Raw: hex.EncodeToString(bz)}
+		cases = append(cases, chainCase{Name: m.name + "/resubmitted-next-block", Class: "resubmitted", Env: env, Want: []string{"balances", "supply"},
+			Ref: []BlockSpec{blk(raw), {}}, Subject: []BlockSpec{blk(raw), blk(raw)},
+			Oracle: func(r, s JobResult) (string, string) {
+				d := balanceDelta(r, s)
+				firstTx, again := s.Blocks[0].Txs[0], lastTx(s)
+				if len(d) != 0 || again.Code == 0 {
+					return "resubmitted-tx-moved-funds", fmt.Sprintf("%s delivered (code %d) and delivered again as the same bytes in the next block: second result code %d, balance changes caused by the second delivery %s", m.tx.String(), firstTx.Code, again.Code, deltaStr(d))
+				}
+				return "", ""
+			}})
 	}
 	// multi-signature payer declaring less than the required fee
 	addr := multiAddrHex("A1", "A2")
